@@ -73,7 +73,7 @@ static long seq = 0;
 static int failed = 0;
 static int waits = 0;
 static ino_t selfpipe_ino = 0;
-static __thread int in_raise = 0;
+static __thread volatile int in_raise = 0;
 static int sigint_done = 0;
 
 static ssize_t (*real_read)(int, void *, size_t);
